@@ -193,9 +193,12 @@ impl Archive {
         for band_id in self.list_band_ids().await?.into_iter().rev() {
             let b = match Band::open(self, band_id).await {
                 Ok(b) => b,
-                // A backup interrupted before writing the head leaves an empty band directory.
-                Err(Error::BandHeadMissing { .. }) => continue,
-                Err(err) => return Err(err),
+                // A backup interrupted while creating the band leaves a band directory with
+                // no head, or with an empty one: that is not a complete band.
+                Err(err) => {
+                    warn!(?band_id, ?err, "Skipping band that can't be opened");
+                    continue;
+                }
             };
             if b.is_closed().await? {
                 return Ok(Some(b));
